@@ -621,8 +621,8 @@ func engineC03(c *vctx) error {
 	c.Preamble("Open Scope N_scope.")
 	repository.VerifC03SetLockWait(time.Millisecond)
 	defer os.RemoveAll(filepath.Join("/dev/shm", fmt.Sprintf("verif-c03-%d", os.Getpid())))
-	nrepo := c.n(3, 10)
-	perRepo := c.n(45, 170)
+	nrepo := c.n(2, 10)
+	perRepo := c.n(40, 170)
 	num := 0
 	for ri := 0; ri < nrepo; ri++ {
 		rng := c.rng.fork()
